@@ -3,4 +3,205 @@ import PjVerif.Spec.Clone
 import PjVerif.Lemmas.GraphTasks
 namespace Pj
 
+/-! ### `seqOps` -/
+
+theorem seqOps_cons_err (f : G → G × Option Err) (fs : List (G → G × Option Err)) (s s' : G) (e : Err)
+    (h : f s = (s', some e)) : seqOps id s (f :: fs) = (s', some e) := by
+  simp only [seqOps, h]
+
+theorem seqOps_cons_ok (f : G → G × Option Err) (fs : List (G → G × Option Err)) (s s' : G)
+    (h : f s = (s', none)) : seqOps id s (f :: fs) = seqOps id s' fs := by
+  simp only [seqOps, h, id]
+
+/-- an invariant of every element of the list is an invariant of the sequence -/
+theorem seqOps_preserves (P : G → Prop) : ∀ (ops : List (G → G × Option Err)) (s : G),
+    (∀ f ∈ ops, ∀ g, P g → P (f g).1) → P s → P (seqOps id s ops).1 := by
+  intro ops
+  induction ops with
+  | nil => intro s _ hs; exact hs
+  | cons f fs ih =>
+    intro s h hs
+    have h1 := h f List.mem_cons_self s hs
+    rcases hfs : f s with ⟨s', e⟩
+    rw [hfs] at h1
+    cases e with
+    | some e => rw [seqOps_cons_err f fs s s' e hfs]; exact h1
+    | none =>
+      rw [seqOps_cons_ok f fs s s' hfs]
+      exact ih s' (fun f' hf' => h f' (List.mem_cons_of_mem _ hf')) h1
+
+/-! ### `cloneOf` -/
+
+theorem cloneOf_some (n : Nat) (sel : List Uid) (x c : Uid) (h : cloneOf n sel x = some c) :
+    ∃ i, ∃ hi : i < sel.length, c = n + i ∧ sel[i] = x ∧ ∀ j (hj : j < i), sel[j]'(Nat.lt_trans hj hi) ≠ x := by
+  unfold cloneOf at h
+  split at h
+  · rename_i i hidx
+    obtain ⟨hi, h1, h2⟩ := List.idxOf?_eq_some_iff.mp hidx
+    cases h
+    exact ⟨i, hi, rfl, h1, fun j hj => h2 j hj⟩
+  · cases h
+
+theorem cloneOf_none_iff (n : Nat) (sel : List Uid) (x : Uid) : cloneOf n sel x = none ↔ x ∉ sel := by
+  unfold cloneOf
+  split
+  · rename_i i hidx
+    constructor
+    · intro h; cases h
+    · intro h
+      obtain ⟨hi, h1, _⟩ := List.idxOf?_eq_some_iff.mp hidx
+      exact absurd (h1 ▸ List.getElem_mem hi) h
+  · rename_i hidx
+    exact ⟨fun _ => List.idxOf?_eq_none_iff.mp hidx, fun _ => rfl⟩
+
+theorem cloneOf_mem (n : Nat) (sel : List Uid) (x : Uid) (hx : x ∈ sel) : ∃ c, cloneOf n sel x = some c := by
+  cases h : cloneOf n sel x with
+  | some c => exact ⟨c, rfl⟩
+  | none => exact absurd hx ((cloneOf_none_iff n sel x).mp h)
+
+theorem getD_eq_getElem' (l : List Uid) (i : Nat) (hi : i < l.length) : l.getD i 0 = l[i] := by
+  simp [List.getD, hi]
+
+/-! ### the list of setter calls of `cloneSel` -/
+
+def perTask (s : G) (w : Uid) (sel : List Uid) (t : Uid) : List (G → G × Option Err) :=
+  match cloneOf s.n sel t with
+  | none => []
+  | some c =>
+    [ (fun g => setParent g c ((s.pubParent t).bind (cloneOf s.n sel))),
+      (fun g => setChildren g c ((s.children t).filterMap (cloneOf s.n sel))),
+      (fun g => setPreds g c ((s.preds t).filterMap (linkTarget s w s.n sel))),
+      (fun g => setSuccs g c ((s.succs t).filterMap (linkTarget s w s.n sel))) ]
+
+def finalOp (s : G) (roots sel : List Uid) : G → G × Option Err :=
+  fun g => setChildren g (s.n + sel.length) (roots.filterMap (cloneOf s.n sel))
+
+def cloneOps (s : G) (w : Uid) (roots sel : List Uid) : List (G → G × Option Err) :=
+  sel.flatMap (perTask s w sel) ++ [finalOp s roots sel]
+
+theorem cloneSel_eq (s : G) (w : Uid) (roots : List Uid) (subs : List (List Uid))
+    (h : roots.mapM (fun r => subtreeF s.children s.fuel r) = some subs) :
+    cloneSel s w roots =
+      ((seqOps id (extend s (dedupFirst subs.flatten)) (cloneOps s w roots (dedupFirst subs.flatten))).1,
+       (seqOps id (extend s (dedupFirst subs.flatten)) (cloneOps s w roots (dedupFirst subs.flatten))).2,
+       s.n + (dedupFirst subs.flatten).length) := by
+  unfold cloneSel
+  rw [h]
+  rfl
+
+theorem cloneSel_none (s : G) (w : Uid) (roots : List Uid)
+    (h : roots.mapM (fun r => subtreeF s.children s.fuel r) = none) :
+    cloneSel s w roots = (s, some (.crash .recursion), 0) := by
+  unfold cloneSel
+  rw [h]
+
+/-! ### `extend` -/
+
+theorem extend_tid_lt (s : G) (sel : List Uid) (u : Uid) (hu : u < s.n) : (extend s sel).tid u = s.tid u := by
+  simp [extend, hu]
+
+theorem extend_tid_clone (s : G) (sel : List Uid) (i : Nat) (hi : i < sel.length) :
+    (extend s sel).tid (s.n + i) = s.tid (sel.getD i 0) := by
+  have h1 : ¬ s.n + i < s.n := by omega
+  simp [extend, hi, h1]
+
+theorem extend_tid_root (s : G) (sel : List Uid) : (extend s sel).tid (s.n + sel.length) = emptyId := by
+  have h1 : ¬ s.n + sel.length < s.n := by omega
+  simp [extend, h1]
+
+/-! ### classification of the setter calls -/
+
+def IsClone (s : G) (sel : List Uid) (c : Uid) : Prop := ∃ i, i < sel.length ∧ c = s.n + i
+
+/-- a task that does not belong to the source WBS -/
+def Outside (s : G) (w : Uid) (v : Uid) : Prop := v < s.n ∧ s.owner v ≠ some w ∧ s.hidden v = false
+
+inductive OpKind (s : G) (w : Uid) (sel : List Uid) : (G → G × Option Err) → Prop
+  | par (c : Uid) (p : Option Uid) : IsClone s sel c → (∀ q, p = some q → IsClone s sel q) →
+      OpKind s w sel (fun g => setParent g c p)
+  | chi (c : Uid) (l : List Uid) : (IsClone s sel c ∨ c = s.n + sel.length) → (∀ v ∈ l, IsClone s sel v) →
+      OpKind s w sel (fun g => setChildren g c l)
+  | prd (c : Uid) (l : List Uid) : IsClone s sel c → (∀ v ∈ l, IsClone s sel v ∨ Outside s w v) →
+      OpKind s w sel (fun g => setPreds g c l)
+  | suc (c : Uid) (l : List Uid) : IsClone s sel c → (∀ v ∈ l, IsClone s sel v ∨ Outside s w v) →
+      OpKind s w sel (fun g => setSuccs g c l)
+
+theorem cloneOf_isClone (s : G) (sel : List Uid) (x c : Uid) (h : cloneOf s.n sel x = some c) : IsClone s sel c := by
+  obtain ⟨i, hi, hc, _, _⟩ := cloneOf_some s.n sel x c h
+  exact ⟨i, hi, hc⟩
+
+theorem filterMap_cloneOf_isClone (s : G) (sel l : List Uid) :
+    ∀ v ∈ l.filterMap (cloneOf s.n sel), IsClone s sel v := by
+  intro v hv
+  obtain ⟨a, _, ha⟩ := List.mem_filterMap.mp hv
+  exact cloneOf_isClone s sel a v ha
+
+theorem linkTarget_kind (s : G) (w : Uid) (sel : List Uid) (x v : Uid) (hx : x < s.n ∧ s.hidden x = false)
+    (h : linkTarget s w s.n sel x = some v) : IsClone s sel v ∨ Outside s w v := by
+  unfold linkTarget at h
+  split at h
+  · exact Or.inl (cloneOf_isClone s sel x v h)
+  · rename_i hne
+    cases h
+    exact Or.inr ⟨hx.1, hne, hx.2⟩
+
+theorem cloneOps_kind (s : G) (w : Uid) (roots sel : List Uid) (hi : Inv s) :
+    ∀ f ∈ cloneOps s w roots sel, OpKind s w sel f := by
+  intro f hf
+  unfold cloneOps at hf
+  rcases List.mem_append.mp hf with hf | hf
+  · obtain ⟨t, _, hft⟩ := List.mem_flatMap.mp hf
+    unfold perTask at hft
+    split at hft
+    · cases hft
+    · rename_i c hc
+      have hcl := cloneOf_isClone s sel t c hc
+      simp only [List.mem_cons, List.not_mem_nil, or_false] at hft
+      rcases hft with rfl | rfl | rfl | rfl
+      · refine OpKind.par c _ hcl ?_
+        intro q hq
+        obtain ⟨a, _, ha⟩ := Option.bind_eq_some_iff.mp hq
+        exact cloneOf_isClone s sel a q ha
+      · exact OpKind.chi c _ (Or.inl hcl) (filterMap_cloneOf_isClone s sel _)
+      · refine OpKind.prd c _ hcl ?_
+        intro v hv
+        obtain ⟨a, ha, hav⟩ := List.mem_filterMap.mp hv
+        have := preds_ok s hi t a ha
+        exact linkTarget_kind s w sel a v ⟨this.2, this.1⟩ hav
+      · refine OpKind.suc c _ hcl ?_
+        intro v hv
+        obtain ⟨a, ha, hav⟩ := List.mem_filterMap.mp hv
+        have := succs_ok s hi t a ha
+        exact linkTarget_kind s w sel a v ⟨this.2, this.1⟩ hav
+  · simp only [List.mem_cons, List.not_mem_nil, or_false] at hf
+    subst hf
+    exact OpKind.chi _ _ (Or.inr rfl) (filterMap_cloneOf_isClone s sel _)
+
+/-- every setter call keeps the universe and the ids -/
+theorem cloneOps_n_tid (s : G) (w : Uid) (roots sel : List Uid) :
+    ∀ f ∈ cloneOps s w roots sel, ∀ g, (f g).1.n = g.n ∧ (f g).1.tid = g.tid := by
+  intro f hf g
+  unfold cloneOps at hf
+  rcases List.mem_append.mp hf with hf | hf
+  · obtain ⟨t, _, hft⟩ := List.mem_flatMap.mp hf
+    unfold perTask at hft
+    split at hft
+    · cases hft
+    · simp only [List.mem_cons, List.not_mem_nil, or_false] at hft
+      rcases hft with rfl | rfl | rfl | rfl
+      · exact ⟨setParent_n _ _ _, setParent_tid _ _ _⟩
+      · exact ⟨setChildren_n _ _ _, setChildren_tid _ _ _⟩
+      · exact ⟨setPreds_n _ _ _, setPreds_tid _ _ _⟩
+      · exact ⟨setSuccs_n _ _ _, setSuccs_tid _ _ _⟩
+  · simp only [List.mem_cons, List.not_mem_nil, or_false] at hf
+    subst hf
+    exact ⟨setChildren_n _ _ _, setChildren_tid _ _ _⟩
+
+theorem seqOps_n_tid (s : G) (w : Uid) (roots sel : List Uid) (s0 : G) :
+    (seqOps id s0 (cloneOps s w roots sel)).1.n = s0.n ∧ (seqOps id s0 (cloneOps s w roots sel)).1.tid = s0.tid := by
+  refine seqOps_preserves (fun g => g.n = s0.n ∧ g.tid = s0.tid) _ s0 ?_ ⟨rfl, rfl⟩
+  intro f hf g hg
+  obtain ⟨h1, h2⟩ := cloneOps_n_tid s w roots sel f hf g
+  exact ⟨h1.trans hg.1, h2.trans hg.2⟩
+
 end Pj
